@@ -85,7 +85,24 @@ Definition route (ws : bool) (s : mux) (f : frame) : mux :=
                        (m_sub s) (m_dropped s ++ [f])
        end.
 
+(** a call gives up (timeout, cancellation): its cleanup removes the entry under
+    its id only if that entry is still its own registration (the async client's
+    guard compares a registration token; one call = one registration, so "the
+    entry's caller is c" is the same test).  The blocking client's
+    [remove_pending] and the WebSocket client's guard remove by id alone
+    ([finish_legacy]); without caller-supplied ids the two coincide
+    (C04_legacy_guard_same_without_reuse). *)
 Definition finish (s : mux) (c : N) (o : outcome) : mux :=
+  match aget (m_issued s) c with
+  | Some id =>
+      let own := match aget (m_pending s) id with Some c' => c' =? c | None => false end in
+      mkMux (m_next s) (if own then adel (m_pending s) id else m_pending s) (m_issued s) (m_wire s) (m_matched s)
+            (m_out s ++ [(c, o)]) (m_sub s) (m_dropped s)
+  | None => s
+  end.
+
+(** the cleanup before the repair of the async client (and the other two clients'): by id alone *)
+Definition finish_legacy (s : mux) (c : N) (o : outcome) : mux :=
   match aget (m_issued s) c with
   | Some id => mkMux (m_next s) (adel (m_pending s) id) (m_issued s) (m_wire s) (m_matched s)
                      (m_out s ++ [(c, o)]) (m_sub s) (m_dropped s)
@@ -145,6 +162,34 @@ Definition mstep (ws : bool) (s : mux) (st : step) : mux :=
 
 Definition run (ws : bool) (s : mux) (l : list step) : mux := fold_left (mstep ws) l s.
 
+Definition mstep_legacy (ws : bool) (s : mux) (st : step) : mux :=
+  match st with
+  | Timeout c => if enabled s st then finish_legacy s c OTimeout else s
+  | Cancel c => if enabled s st then finish_legacy s c OCancel else s
+  | _ => mstep ws s st
+  end.
+Definition run_legacy (ws : bool) (s : mux) (l : list step) : mux := fold_left (mstep_legacy ws) l s.
+
+(** responses are correlated by id alone: once the id of caller k's request has
+    been registered again by another call, a response to k's request cannot be
+    told from a response to that call.  The scripted server therefore answers
+    k's request only while the entry under its id, if any, is k's own. *)
+Definition srv_own (s : mux) (st : step) : bool :=
+  match st with
+  | Srv (SReply k _) =>
+      match aget (m_wire s) k with
+      | Some id => match aget (m_pending s) id with Some c => c =? k | None => true end
+      | None => true
+      end
+  | _ => true
+  end.
+
+Fixpoint all_srv_own (ws : bool) (s : mux) (l : list step) : bool :=
+  match l with
+  | [] => true
+  | st :: l' => srv_own s st && all_srv_own ws (mstep ws s st) l'
+  end.
+
 (** an accepted registration does not reuse an id: the id of a Register or
     Forward step is either pending (then the step is refused) or was never
     registered on this connection *)
@@ -184,7 +229,7 @@ Inductive oc : Set :=
 Record c04_obs : Set := mkObs {
   o_out : list oc;     (* per caller 0..n-1 *)
   o_sub : list N;      (* tags the notification subscriber received, in order *)
-  o_ids : list N       (* request ids the server read, sorted *)
+  o_ids : list N       (* ids of the requests of counter-issued calls that the server read, sorted *)
 }.
 
 Definition callers (n : N) : list N := map N.of_nat (seq 0 (N.to_nat n)).
@@ -206,9 +251,18 @@ Definition oc_of (s : mux) (c : N) : oc :=
   | None => CClosed     (* the server closes at the end: every call still waiting fails *)
   end.
 
-Definition model_C04 (cs : c04_case) : c04_obs :=
-  let s := deliver (run (c_ws cs) mux0 (c_sched cs)) in
-  mkObs (map (oc_of s) (callers (c_n cs))) (map f_tag (m_sub s)) (sortN (map snd (m_wire s))).
+(** caller c draws its id from the counter *)
+Definition is_counter (l : list step) (c : N) : bool :=
+  existsb (fun st => match st with Register k => k =? c | _ => false end) l.
+
+Definition counter_ids (l : list step) (wire : list (N * N)) : list N :=
+  sortN (map snd (filter (fun ci => is_counter l (fst ci)) wire)).
+
+Definition obs_of (cs : c04_case) (s : mux) : c04_obs :=
+  mkObs (map (oc_of s) (callers (c_n cs))) (map f_tag (m_sub s)) (counter_ids (c_sched cs) (m_wire s)).
+
+Definition model_C04 (cs : c04_case) : c04_obs := obs_of cs (deliver (run (c_ws cs) mux0 (c_sched cs))).
+Definition model_C04_legacy (cs : c04_case) : c04_obs := obs_of cs (deliver (run_legacy (c_ws cs) mux0 (c_sched cs))).
 
 (** ** well-formed cases: what the generator promises *)
 Definition is_raw (st : step) : bool := match st with Recv _ => true | _ => false end.
@@ -229,7 +283,7 @@ Definition c04_wf (cs : c04_case) : bool :=
   (N.of_nat (length (c_sched cs)) <? two32) &&
   forallb (step_ok (c_ws cs) (c_n cs)) (c_sched cs) &&
   all_enabled (c_ws cs) mux0 (c_sched cs) &&
-  all_fresh (c_ws cs) mux0 (c_sched cs) &&
+  all_srv_own (c_ws cs) mux0 (c_sched cs) &&
   (let s := run (c_ws cs) mux0 (c_sched cs) in
    forallb (fun c => isSome (aget (m_wire s) c) || isSome (aget (m_out s) c)) (callers (c_n cs))).
 
